@@ -283,7 +283,7 @@ func (e *Emitter) body(t *Term) string {
 		}
 		return e.nary(opNames[t.op], a)
 	case OpBVAdd, OpBVSub, OpBVMul, OpBVSDiv, OpBVSRem, OpBVNeg, OpBVAnd, OpBVOr, OpBVXor, OpBVShl, OpBVAshr, OpBVLshr,
-		OpIntAdd, OpIntSub, OpIntLt, OpIntLe, OpSubstr, OpIndexOf, OpStrLen:
+		OpIntAdd, OpIntSub, OpIntLt, OpIntLe, OpSubstr, OpIndexOf, OpStrLen, OpStrToInt:
 		return e.nary(opNames[t.op], a)
 	case OpConcat:
 		return e.nary("str.++", a)
